@@ -69,8 +69,30 @@ func init() {
 				if b, ok := ins.(*ssa.BinOp); ok && b.Op == token.LSS && isCount(b.Y) {
 					bound = true // for i := 0; i < len(files)-max+1; i++
 				}
-				if sl, ok := ins.(*ssa.Slice); ok && sl.Low == nil && sl.High != nil && isCount(sl.High) && strings.Contains(accessPath(sl.X), "listMetricFiles(") {
-					bound = true // for _, f := range files[:len(files)-max+1]
+				if sl, ok := ins.(*ssa.Slice); ok && sl.Low == nil && sl.High != nil && strings.Contains(accessPath(sl.X), "listMetricFiles(") {
+					// for _, f := range files[:len(files)-max+1], the count possibly clamped to len(files) where it exceeds it
+					all, some := true, false
+					for _, cs := range splitPhiCases(stripConv(sl.High), sl.Block(), nil, 0) {
+						switch {
+						case isCount(cs.val):
+							some = true
+						case strings.HasPrefix(accessPath(stripConv(cs.val)), "builtin len(") && strings.Contains(accessPath(stripConv(cs.val)), "listMetricFiles("):
+							clamp := false
+							for fct := range canonFacts(cs.block, cs.extra...) {
+								if strings.Contains(fct, "maxFileAmount") && strings.Contains(fct, "builtin len(") && (strings.Contains(fct, " < ") || strings.Contains(fct, " <= ")) {
+									clamp = true
+								}
+							}
+							if !clamp {
+								all = false
+							}
+						default:
+							all = false
+						}
+					}
+					if all && some {
+						bound = true
+					}
 				}
 				if ci, ok := ins.(ssa.CallInstruction); ok && isExtCall(ci, "os.Remove") {
 					p := accessPath(ci.Common().Args[0])
@@ -1017,11 +1039,38 @@ func init() {
 					n++
 					cond, _ := stripNot(ifi.Cond, true)
 					okCond := false
+					isCont := func(v ssa.Value) bool {
+						x, ok := v.(*ssa.Extract)
+						if !ok {
+							return false
+						}
+						call, isCall := x.Tuple.(*ssa.Call)
+						return isCall && call.Call.StaticCallee() != nil && strings.HasPrefix(call.Call.StaticCallee().Name(), "readMetricsInOneFile") && x.Index == 1
+					}
 					switch x := cond.(type) {
 					case *ssa.Extract:
-						if call, isCall := x.Tuple.(*ssa.Call); isCall && call.Call.StaticCallee() != nil && strings.HasPrefix(call.Call.StaticCallee().Name(), "readMetricsInOneFile") && x.Index == 1 {
+						if isCont(x) {
 							okCond = true // shouldContinue
 						}
+					case *ssa.Phi:
+						// the flag as a loop-carried variable: the first file's answer, then each later file's
+						okCond = true
+						seenP := map[*ssa.Phi]bool{}
+						var walk func(ph *ssa.Phi)
+						walk = func(ph *ssa.Phi) {
+							if seenP[ph] {
+								return
+							}
+							seenP[ph] = true
+							for _, e := range ph.Edges {
+								if p2, isP := e.(*ssa.Phi); isP {
+									walk(p2)
+								} else if !isCont(e) {
+									okCond = false
+								}
+							}
+						}
+						walk(x)
 					case *ssa.BinOp:
 						p := accessPath(x)
 						if strings.Contains(p, "builtin len({[]string})") {
